@@ -161,9 +161,7 @@ class Cmp:
         if osw != esw:
             self.bad(run, x, vp, slot, "sw", esw, osw)
             return
-        if esw == 0:
-            if not undefined(ohh) or not undefined(ogg):
-                self.bad(run, x, vp, slot, "undef", None, [ohh, ogg])
+        if esw == 0:      # an empty lag reports no pair; what hh / gg hold there is not part of the property
             return
         self.cnt("slots_nonempty")
         if ehh is not None and not close(ohh, ehh):
@@ -308,6 +306,7 @@ class Cmp:
             self.out.append(dict(kind="crash", signal=obs["crash"], label=lab, variant=lab.split("/")[0], mode=lab.split("/")[-1],
                                  algo=lab.split("/")[1], multi_dir=len(c["dirs"]) > 1, has_weights=c["hasW"]))
             self.cnt("crashes")
+            self.cnt("crash:" + lab.split("/")[-1])
             return
         for run in obs["runs"]:
             key = "%s/%s" % (run["v"], run["algo"])
@@ -542,9 +541,15 @@ def run(tier):
 
     # vacuity
     need = ["slots_nonempty", "cmp_gen", "cmp_bys", "run:base/gen", "run:rev/gen", "run:shuf/gen", "run:tr/gen", "run:dbgrid/gen",
-            "run:grid/gen", "run:base/bys", "flag_grid", "flag_etie", "flag_pur", "cmp_general", "dirs_with_pairs"]
+            "run:grid/gen", "run:base/bys", "flag_grid", "flag_etie", "flag_pur", "dirs_with_pairs"]
+    if not counters.get("crash:general1"):      # (the library aborts on the generalised variograms: known finding)
+        need.append("cmp_general")
     need += ["mode:" + m for c in cfgs for m in c["modes"]]
     missing = [k for k in need if counters.get(k, 0) == 0]
     if missing:
         raise Broken("vacuous categories: %s" % missing)
+    if os.environ.get("C12_KEEP"):          # development aid: keep cases / observations
+        import shutil
+        shutil.rmtree(os.environ["C12_KEEP"], ignore_errors=True)
+        shutil.copytree(w, os.environ["C12_KEEP"])
     return ck.finish()
